@@ -39,6 +39,7 @@ func c12VoteSpecs(quick bool) []hapi.ArbSpec {
 		{Name: "4-members-weight0-and-arbiter", Members: []hapi.ArbMember{d(1, 1), d(0, 1), d(2, 2), arb}, Candidates: []int{0, 1}, Rounds: 1, MaxLoss: 0},
 	}
 	specs = append(specs,
+		hapi.ArbSpec{Name: "3-data-member-restart", Members: []hapi.ArbMember{d(1, 1), d(1, 1), d(1, 1)}, Candidates: []int{0, 1}, Rounds: 1, MaxLoss: 1, Restarts: 1},
 		hapi.ArbSpec{Name: "3-data-equal-logs-two-losses", Members: []hapi.ArbMember{d(1, 1), d(1, 1), d(1, 1)}, Candidates: []int{0, 1}, Rounds: 1, MaxLoss: 2},
 		hapi.ArbSpec{Name: "3-data-three-candidates", Members: []hapi.ArbMember{d(1, 1), d(1, 1), d(1, 1)}, Candidates: []int{0, 1, 2}, Rounds: 1, MaxLoss: 0},
 		hapi.ArbSpec{Name: "3-data-two-rounds-one-loss", Members: []hapi.ArbMember{d(1, 1), d(1, 1), d(1, 1)}, Candidates: []int{0, 1}, Rounds: 2, MaxLoss: 1},
@@ -91,10 +92,11 @@ type arbStats struct {
 	Capped      bool
 	Violations  int
 	Sample      []string
+	Known       map[string]int
 }
 
 func c12VoteMaster(c *Ctx, spec hapi.ArbSpec, maxStates int) (*arbStats, string) {
-	st := &arbStats{Name: spec.Name, Winners: map[string]bool{}}
+	st := &arbStats{Name: spec.Name, Winners: map[string]bool{}, Known: map[string]int{}}
 	pool, err := c.NewPool("votes/"+spec.Name, c.NProc)
 	if err != nil {
 		return nil, err.Error()
@@ -132,7 +134,7 @@ func c12VoteMaster(c *Ctx, spec hapi.ArbSpec, maxStates int) (*arbStats, string)
 		}
 		vs, known := c.SplitKnown(vs)
 		for _, k := range known {
-			c.ReportKnown(map[string]int{k: 1})
+			st.Known[k]++
 		}
 		for _, v := range vs {
 			if reported[v.Sig] {
@@ -162,6 +164,10 @@ func c12VoteMaster(c *Ctx, spec hapi.ArbSpec, maxStates int) (*arbStats, string)
 		var hists [][]hapi.ArbEvent
 		for _, n := range frontier {
 			for _, m := range n.obs.Pending {
+				if strings.HasPrefix(m, "restart:") {
+					hists = append(hists, append(append([]hapi.ArbEvent{}, n.h...), hapi.ArbEvent{Msg: m, Fate: "restart"}))
+					continue
+				}
 				fates := []string{"deliver"}
 				if n.obs.Losses < spec.MaxLoss {
 					fates = append(fates, "lose", "deliver-lose-reply")
